@@ -90,6 +90,15 @@ def basis_flat(B):
     return out
 
 
+_TWIN = {}
+
+
+def twin(name):
+    if name not in _TWIN:
+        _TWIN[name] = new_csys(name)
+    return _TWIN[name]
+
+
 def cfg(name):
     if name not in _CACHE:
         _CACHE[name] = Cfg(name)
@@ -235,8 +244,8 @@ def inband(zs, eps):
     return any(band(z.imag, eps, 8.0 * size) or band(z.real, eps) for z in zs)
 
 
-LAYOUTS2 = ["C", "C", "F", "Tview", "strided", "Fstrided", "negstride"]
-LAYOUTS1 = ["C", "C", "strided", "negstride"]
+LAYOUTS2 = ["C", "C", "F", "Tview", "strided", "Fstrided", "negstride", "readonly", "Freadonly"]
+LAYOUTS1 = ["C", "C", "strided", "negstride", "readonly"]
 
 
 class Lay:
@@ -267,6 +276,9 @@ class Lay:
             sl = tuple(slice(None, None, 2) for _ in A.shape)
             big[sl] = A
             out = big[sl]
+        elif kind in ("readonly", "Freadonly"):      # a conversion never needs to write into its argument
+            out = np.asfortranarray(A) if kind == "Freadonly" else np.ascontiguousarray(A)
+            out.setflags(write=False)
         else:       # negstride
             rev = tuple(slice(None, None, -1) for _ in A.shape)
             out = A[rev].copy()[rev]
@@ -940,6 +952,88 @@ def sub_povm(ctx):
     ctx.run_cases("povm", chk_povm, decorate(ctx, cases))
 
 
+# ================================================================================================ composite POVMs: multi-index access
+PRODUCTS = {   # name: (factors (family, dim, number of outcomes), tier) - unequal local outcome counts, unequal local dimensions, three factors
+    "2x3": ([("pauli", 2, 2), ("pauli", 2, 3)], "quick"),
+    "3x2": ([("pauli", 2, 3), ("pauli", 2, 2)], "quick"),
+    "1x3": ([("pauli", 2, 1), ("ggm", 2, 3)], "quick"),
+    "2x3x2": ([("pauli", 2, 2), ("pauli", 2, 3), ("pauli", 2, 2)], "quick"),
+    "2x2": ([("pauli", 2, 2), ("pauli", 2, 2)], "quick"),
+    "q2xt3": ([("pauli", 2, 2), ("gm", 3, 3)], "thorough"),
+    "t3xq4": ([("gm", 3, 3), ("pauli", 2, 4)], "thorough"),
+    "3x4x2": ([("pauli", 2, 3), ("pauli", 2, 4), ("pauli", 2, 2)], "thorough"),
+}
+
+
+def chk_povm_product(ctx, case):
+    """A composite POVM (built by operators.tensor_product from local POVMs with possibly DIFFERENT numbers of outcomes) accessed with a tuple index:
+    Povm.vec / matrix / matrix_with_sparsity (x_1, .., x_k) must be the representation of the element A_x1 (x) .. (x) K_xk, which is stored row-major
+    at serial position sum_i x_i * prod_{j>i} n_j of vecs / matrices().  Every tuple of the index box is enumerated (nothing depends on the seed
+    except the entries of the local POVMs)."""
+    from quara.objects.elemental_system import ElementalSystem
+    from quara.objects.composite_system import CompositeSystem
+    from quara.objects import povm as P
+    from quara.objects.operators import tensor_product
+    L = Lay(case)
+    K = Cmp(ctx, "povm_product", case, L)
+    factors = case["factors"]
+    locs, mats = [], []
+    for i, (fam, dm, m) in enumerate(factors):
+        cs_i = CompositeSystem([ElementalSystem(i, _family(fam, dm))])
+        vecs = [np.array(v, dtype=float) for v in case["vecs"][i]]
+        locs.append(P.Povm(cs_i, L.many(vecs), is_physicality_required=False))
+        Bi = np.array([dense(b) for b in cs_i.basis()])
+        bfi = basis_flat(Bi)
+        mats.append([m_cmat(M(ctx).call("c02.op_of_cvec", [dm], bfi + cflat(v)), dm, dm) for v in vecs])     # the model's local elements
+    pv = locs[0]
+    for q in locs[1:]:
+        pv = tensor_product(pv, q)
+    nums = [m for _, _, m in factors]
+    if list(pv.nums_local_outcomes) != nums:
+        K.bad("Povm.nums_local_outcomes", "value", "nums_local_outcomes %s of the product of local POVMs with %s outcomes" % (list(pv.nums_local_outcomes), nums))
+        return
+    cs = pv.composite_system
+    d = int(cs.dim)
+    bf = basis_flat(np.array([dense(b) for b in cs.basis()]))
+    all_m = [np.asarray(x) for x in pv.matrices()]
+    for serial, md in enumerate(itertools.product(*[range(n) for n in nums])):
+        exp = np.eye(1, dtype=complex)
+        for f, x in zip(mats, md):
+            exp = np.kron(exp, f[x])                                            # the element the tuple denotes
+        stored = m_cmat(M(ctx).call("c02.op_of_cvec", [d], bf + cflat(np.asarray(pv.vecs[serial], dtype=float))), d, d)
+        K.eq("Povm.matrices", all_m[serial], stored, "matrices()[%d] vs model operator of vecs[%d]" % (serial, serial))
+        K.eq("operators.tensor_product(Povm, Povm)", stored, exp, "element stored at serial %d vs the product element %s (row-major layout)" % (serial, md), tol=1e-9, sig="layout")
+        for key in (md, serial):
+            r, v = call(pv.vec, key)
+            if r == "err":
+                K.bad("Povm.vec", "unexpected-raise", "vec(%s) raised %s (local outcome counts %s)" % (key, v, nums))
+            else:
+                K.eq("Povm.vec", v, pv.vecs[serial], "vec(%s) vs vecs[%d] (local outcome counts %s)" % (key, serial, nums), tol=0.0, sig="multi-index")
+            for site, f in (("Povm.matrix", pv.matrix), ("Povm.matrix_with_sparsity", pv.matrix_with_sparsity)):
+                r, v = call(f, key)
+                if r == "err":
+                    K.bad(site, "unexpected-raise", "%s(%s) raised %s" % (site, key, v))
+                else:
+                    K.eq(site, v, exp, "%s(%s) vs the element %s of the product POVM (local outcome counts %s)" % (site, key, md, nums), tol=1e-9, sig="multi-index")
+        ctx.count("povm_product", key=(case["name"], md), label="%s/outcomes=%s" % (case["name"], "x".join(map(str, nums))))
+    for bad_key, kinds in ((tuple([0] * (len(nums) + 1)), ("ValueError",)), (tuple(nums), ("IndexError",)), (int(np.prod(nums)), ("IndexError",))):
+        r, v = call(pv.vec, bad_key)
+        if not (r == "err" and v in kinds):
+            K.bad("Povm.vec", "error-branch", "vec(%s) on local outcome counts %s: expected %s, got %s" % (bad_key, nums, kinds, (r, v if r == "err" else "value")))
+
+
+def sub_povm_product(ctx):
+    rng = ctx.rng
+    cases = []
+    for name, (factors, tier) in PRODUCTS.items():
+        if tier == "thorough" and ctx.quick:
+            continue
+        vecs = [[rand_real(rng, dm * dm).tolist() for _ in range(m)] for _, dm, m in factors]
+        cases.append({"name": name, "factors": [list(f) for f in factors], "vecs": vecs})
+    ctx.sample("povm_product", cases[0])
+    ctx.run_cases("povm_product", chk_povm_product, decorate(ctx, cases, opts=False))
+
+
 # ================================================================================================ gates: HS <-> Choi
 def frob(A):
     return float(np.sqrt((np.abs(np.asarray(A)) ** 2).sum()))
@@ -968,8 +1062,12 @@ def chk_gate_choi(ctx, case):
             outs["Gate.to_choi_matrix"] = g.to_choi_matrix()
             outs["Gate.to_choi_matrix_with_dict"] = g.to_choi_matrix_with_dict()
             outs["Gate.to_choi_matrix_with_sparsity"] = g.to_choi_matrix_with_sparsity()
+        if not is_smoke(ctx, c.name):      # an EQUAL but not identical CompositeSystem (same elemental bases, own caches) must give the same answers
+            tw = twin(c.name)
+            outs["gate.to_choi_from_hs[twin c_sys]"] = G.to_choi_from_hs(tw, L(Hin))
+            outs["gate.to_choi_from_hs_with_sparsity[twin c_sys]"] = G.to_choi_from_hs_with_sparsity(tw, L(Hin))
         for site, val in outs.items():
-            K.eq(site, val, mod, "HS -> Choi")
+            K.eq(site.split("[")[0], val, mod, "HS -> Choi" + (" on an equal but not identical CompositeSystem" if "[" in site else ""))
         ctx.count("gate_choi", key=(c.name, "hs", tuple(np.round(H.ravel(), 9))), label="hs->choi/%s" % case.get("gen", "?"))
         ch = outs["gate.to_choi_from_hs"]
         if c.orthonormal:                # isometry; Hermitian Choi for real HS; round trips through every inverse variant
@@ -1268,6 +1366,18 @@ def sub_gate_kraus(ctx):
             A = np.eye(d, dtype=complex) + rand_cplx(rng, d, d) / 16
             Ks = [A] + [rand_cplx(rng, d, d) * (2.0 ** -rng.choice([8, 10])) for _ in range(rng.choice([1, 2]))]
             cases.append({"cfg": n, "gen": "weak-noise", "Ks": [jc(x) for x in Ks], "X": jc(rand_cplx(rng, d, d)), "tols": [None, 1e-4, 1e-6]})
+        if not is_smoke(ctx, n):
+            # the Kraus rank (number of non-zero Choi eigenvalues) as a DETERMINISTIC dimension: 1, 2, d^2 - 1 and the full rank d^2 (generic
+            # operators), full rank with a completely degenerate spectrum (all d^2 matrix units, equal weights: Choi = I/4) and full rank with
+            # weak noise (smallest eigenvalues of order 1e-5) - every eigenvalue above Settings.get_atol() must contribute an operator
+            for r in sorted({1, 2, d * d - 1, d * d}):
+                Ks = [rand_cplx(rng, d, d) / 4 for _ in range(r)]
+                cases.append({"cfg": n, "gen": "rank=%s" % ("d^2" if r == d * d else ("d^2-1" if r == d * d - 1 else r)), "Ks": [jc(x) for x in Ks],
+                              "X": jc(rand_cplx(rng, d, d)), "tols": [None, 1e-6]})
+            Ks = [unit(d * d, i, (d, d)).astype(complex) / 2 for i in range(d * d)]
+            cases.append({"cfg": n, "gen": "full-rank-degenerate", "Ks": [jc(x) for x in Ks], "X": jc(rand_cplx(rng, d, d)), "tols": [None, 1e-6]})
+            Ks = [np.eye(d, dtype=complex) + rand_cplx(rng, d, d) / 16] + [rand_cplx(rng, d, d) * 2.0 ** -8 for _ in range(d * d - 1)]
+            cases.append({"cfg": n, "gen": "full-rank-weak", "Ks": [jc(x) for x in Ks], "X": jc(rand_cplx(rng, d, d)), "tols": [None, 1e-4]})
         if not is_smoke(ctx, n) and c.hermitian and c.orthonormal:
             for _ in range(nn(ctx, n, 2, 8)):
                 noncp.append({"cfg": n, "H": rand_real(rng, c.D, c.D).tolist()})
@@ -1535,6 +1645,89 @@ def sub_mprocess(ctx):
     ctx.run_cases("mprocess", chk_mprocess, decorate(ctx, cases))
 
 
+# ================================================================================================ returned arrays modified by the caller
+def scribble(x):
+    """overwrite a returned value in place where Python lets the caller do so (arrays, lists / tuples of arrays, (weight, array) pairs)"""
+    if isinstance(x, (list, tuple)):
+        for y in x:
+            scribble(y)
+    elif isinstance(x, np.ndarray) and x.flags.writeable and x.size:
+        x[...] = 7.25
+    elif hasattr(x, "data") and hasattr(x, "toarray") and getattr(x.data, "flags", None) is not None and x.data.flags.writeable and x.data.size:
+        x.data[...] = 7.25
+
+
+def chk_returned_arrays(ctx, case):
+    """The array a conversion METHOD returns belongs to the caller: overwriting it must not change what the object (or the CompositeSystem) returns
+    the next time - every conversion is called, its result overwritten in place, then all conversions are called again and compared with the model."""
+    from quara.objects import state as S, povm as P, gate as G, mprocess as MP
+    c = cfg(case["cfg"])
+    L = Lay(case)
+    K = Cmp(ctx, "returned_arrays", case, L)
+    d, D = c.d, c.D
+    cs = new_csys(case["cfg"])           # own system: its caches are part of the history
+    v = np.array(case["v"], dtype=float)
+    vecs = [np.array(x, dtype=float) for x in case["vecs"]]
+    H = np.array(case["H"], dtype=float)
+    hss = [np.array(x, dtype=float) for x in case["hss"]]
+    st = S.State(cs, L(v), is_physicality_required=False)
+    pv = P.Povm(cs, L.many(vecs), is_physicality_required=False)
+    g = G.Gate(cs, L(H), is_physicality_required=False)
+    mp = MP.MProcess(cs, L.many(hss), is_physicality_required=False)
+    rho = m_op_of_cvec(ctx, c, v)
+    mats = [m_op_of_cvec(ctx, c, x) for x in vecs]
+    choi = m_choi(ctx, c, H)
+    chois = [m_choi(ctx, c, h) for h in hss]
+    pm = m_cmat(M(ctx).call("c02.process_matrix", [d], c.bf + cflat(H)), D, D)
+    Bt = np.array([dense(b) for b in cs.comp_basis()])
+    conv = m_convert_hs(ctx, c, Bt, H)
+    calls = [
+        ("State.to_density_matrix", st.to_density_matrix, rho), ("State.to_density_matrix_with_sparsity", st.to_density_matrix_with_sparsity, rho),
+        ("Povm.matrices", pv.matrices, mats), ("Povm.matrices_with_sparsity", pv.matrices_with_sparsity, mats),
+        ("Povm.matrix", lambda: pv.matrix(len(vecs) - 1), mats[-1]), ("Povm.matrix_with_sparsity", lambda: pv.matrix_with_sparsity(len(vecs) - 1), mats[-1]),
+        ("Gate.to_choi_matrix", g.to_choi_matrix, choi), ("Gate.to_choi_matrix_with_dict", g.to_choi_matrix_with_dict, choi),
+        ("Gate.to_choi_matrix_with_sparsity", g.to_choi_matrix_with_sparsity, choi), ("Gate.to_process_matrix", g.to_process_matrix, pm),
+        ("Gate.convert_to_comp_basis", g.convert_to_comp_basis, conv),
+        ("MProcess.to_choi_matrix", lambda: mp.to_choi_matrix(len(hss) - 1), chois[-1]),
+        ("MProcess.to_choi_matrix_with_sparsity", lambda: mp.to_choi_matrix_with_sparsity(0), chois[0]),
+        ("gate.to_choi_from_hs", lambda: G.to_choi_from_hs(cs, H.copy()), choi),
+        ("gate.to_hs_from_choi", lambda: G.to_hs_from_choi(cs, np.array(choi)), H),
+    ]
+    order = list(case["order"])
+    for rnd in (0, 1):          # round 0: call + overwrite ; round 1: call again, compare, overwrite again ; finally everything once more
+        for k in order:
+            site, f, exp = calls[k % len(calls)]
+            r, val = call(f)
+            if r == "err":
+                K.bad(site, "unexpected-raise", "raised %s after returned arrays were overwritten by the caller" % val)
+                continue
+            if rnd == 1:
+                K.eq(site, np.array([np.asarray(dense(x)) for x in val]) if isinstance(val, (list, tuple)) else np.asarray(dense(val)),
+                     np.array(exp) if isinstance(exp, list) else exp, "%s after the caller overwrote previously returned arrays in place" % site, tol=1e-9, sig="value-after-caller-wrote-result")
+            scribble(val)
+    for site, f, exp in calls:
+        r, val = call(f)
+        if r == "ok":
+            K.eq(site, np.array([np.asarray(dense(x)) for x in val]) if isinstance(val, (list, tuple)) else np.asarray(dense(val)),
+                 np.array(exp) if isinstance(exp, list) else exp, "%s (final pass) after the caller overwrote returned arrays in place" % site, tol=1e-9, sig="value-after-caller-wrote-result")
+    ctx.count("returned_arrays", key=(c.name, tuple(order), tuple(v)), label=c.name)
+
+
+def sub_returned_arrays(ctx):
+    rng = ctx.rng
+    cases = []
+    for n in active_configs(ctx):
+        c = cfg(n)
+        if not CONFIGS[n][2] or is_smoke(ctx, n) or (c.d >= 6):
+            continue
+        for _ in range(nn(ctx, n, 2, 6)):
+            cases.append({"cfg": n, "v": rand_real(rng, c.D).tolist(), "vecs": [rand_real(rng, c.D).tolist() for _ in range(3)],
+                          "H": rand_real(rng, c.D, c.D).tolist(), "hss": [rand_real(rng, c.D, c.D).tolist() for _ in range(2)],
+                          "order": rng.sample(range(15), 15)})
+    ctx.sample("returned_arrays", {k: cases[0][k] for k in ("cfg", "order")})
+    ctx.run_cases("returned_arrays", chk_returned_arrays, decorate(ctx, cases, opts=False))
+
+
 # ================================================================================================ truncate_hs
 def chk_truncate(ctx, case):
     from quara.utils import matrix_util as mu
@@ -1669,11 +1862,11 @@ def sub_linearity(ctx):
     ctx.run_cases("linearity", chk_linearity, decorate(ctx, cases, opts=False))
 
 
-SUBS = [("basis", sub_basis), ("tables", sub_tables), ("table_history", sub_table_history), ("state", sub_state), ("povm", sub_povm), ("gate_choi", sub_gate_choi),
-        ("gate_basis", sub_gate_basis), ("gate_kraus", sub_gate_kraus), ("lindbladian_kraus", sub_lindbladian_kraus), ("gate_var", sub_gate_var), ("mprocess", sub_mprocess),
+SUBS = [("basis", sub_basis), ("tables", sub_tables), ("table_history", sub_table_history), ("state", sub_state), ("povm", sub_povm), ("povm_product", sub_povm_product), ("gate_choi", sub_gate_choi),
+        ("gate_basis", sub_gate_basis), ("gate_kraus", sub_gate_kraus), ("lindbladian_kraus", sub_lindbladian_kraus), ("gate_var", sub_gate_var), ("mprocess", sub_mprocess), ("returned_arrays", sub_returned_arrays),
         ("truncate", sub_truncate), ("linearity", sub_linearity)]
-FNS = {"basis": chk_basis, "tables": chk_tables, "table_history": chk_table_history, "state": chk_state, "povm": chk_povm, "gate_choi": chk_gate_choi,
-       "gate_basis": chk_gate_basis, "gate_kraus": chk_gate_kraus, "lindbladian_kraus": chk_lindbladian_kraus, "gate_var": chk_gate_var, "mprocess": chk_mprocess,
+FNS = {"basis": chk_basis, "tables": chk_tables, "table_history": chk_table_history, "state": chk_state, "povm": chk_povm, "povm_product": chk_povm_product, "gate_choi": chk_gate_choi,
+       "gate_basis": chk_gate_basis, "gate_kraus": chk_gate_kraus, "lindbladian_kraus": chk_lindbladian_kraus, "gate_var": chk_gate_var, "mprocess": chk_mprocess, "returned_arrays": chk_returned_arrays,
        "truncate": chk_truncate, "linearity": chk_linearity}
 
 
@@ -1686,7 +1879,7 @@ def _timed(name, fn):
     return g
 
 
-WIDEN_ON_BROKEN_TIE = ("state", "povm", "gate_var", "truncate")
+WIDEN_ON_BROKEN_TIE = ("state", "povm", "povm_product", "gate_var", "truncate")
 
 
 def regen_glue(ctx):
